@@ -1,5 +1,172 @@
-(* C06 — placeholder while the harness/model tie is brought up; replaced by the real statements. *)
+(* C06 — The channel runtime state machine keeps watermark and reply invariants.
+   Only statements, each closed by [exact] of a lemma from Proof/Machine*.v.
+
+   Vocabulary (Model/Machine.v): [init_state key local gen id leo hw cp] is
+   machine.NewChannelState plus the watermarks the reactor loads from the store;
+   [step s e] is one transition (ApplyMeta, ProposeAppendBatch / ProposeAppend,
+   ApplyAppendStored, ApplyQuorumCommitted, a follower ack on one of the four routes —
+   three of them the reactor call sites of ApplyFollowerAck with their guards —,
+   CancelAppendWaiter, AbortAppendBatchProposal) returning the new state and the Decision;
+   [run_state s evs] folds [step]; [run s evs] is the trace (event, decision, state). *)
 From WK Require Import Base.Base Gen.Consts_C06 Model.Machine.
+From WK Require Import Proof.Machine Proof.Machine_steps Proof.Machine_trans Proof.Machine_monitor
+     Proof.Machine_props Proof.Machine_range.
 Open Scope N_scope.
-Example c06_example_init : wm_ok (init_state 1 1 1 0 5 3 2) = true.
+
+(* checkpointed <= committed <= log end in every reachable state (and every Progress match <= LEO,
+   the fact AdvanceHW relies on) — arbitrary event lists, arbitrary valid initial watermarks *)
+Theorem c06_watermarks : forall key local gen id leo hw cp, cp <= hw -> hw <= leo -> forall evs,
+  let s := run_state (init_state key local gen id leo hw cp) evs in
+  s_cp s <= s_hw s /\ s_hw s <= s_leo s /\ forall n, pr_get n (s_progress s) <= s_leo s.
+Proof. exact watermarks. Qed.
+Print Assumptions c06_watermarks.
+
+(* the committed watermark (and the log end) never decrease, the checkpoint is never moved by the
+   machine — at every step, hence in particular within one metadata fence *)
+Theorem c06_hw_monotone : forall key local gen id leo hw cp, cp <= hw -> hw <= leo -> forall evs e,
+  let s := run_state (init_state key local gen id leo hw cp) evs in
+  let s' := fst (step s e) in
+  s_hw s <= s_hw s' /\ s_leo s <= s_leo s' /\ s_cp s' = s_cp s.
+Proof. exact monotone. Qed.
+Print Assumptions c06_hw_monotone.
+
+(* a successful reply goes to an op that was waiting; its items end at the waiter's (non-zero)
+   target, and for a quorum-mode waiter the committed watermark after the step covers it *)
+Theorem c06_quorum_reply_covered :
+  forall key local gen id leo hw cp, cp <= hw -> hw <= leo -> forall evs e r,
+  let s := run_state (init_state key local gen id leo hw cp) evs in
+  let s' := fst (step s e) in
+  In r (d_replies (snd (step s e))) -> r_err r = 0 ->
+  exists w target,
+    find_w (r_op r) (s_pending s) = Some w /\ target <> 0
+    /\ (forall q, last_idx (r_items r) = Some q -> q = target)
+    /\ (w_mode w = CommitModeQuorum -> target <= s_hw s').
+Proof. exact quorum_reply_covered. Qed.
+Print Assumptions c06_quorum_reply_covered.
+
+(* per step: replies go only to waiting ops, remove them, are pairwise distinct; ops enter
+   PendingAppends only through an accepted proposal, under ids that were not waiting *)
+Theorem c06_reply_once_step :
+  forall key local gen id leo hw cp, cp <= hw -> hw <= leo -> forall evs e,
+  let s := run_state (init_state key local gen id leo hw cp) evs in
+  let s' := fst (step s e) in
+  let d := snd (step s e) in
+  (forall r, In r (d_replies d) ->
+     In (r_op r) (pend_ids (s_pending s)) /\ ~ In (r_op r) (pend_ids (s_pending s')))
+  /\ NoDup (map r_op (d_replies d))
+  /\ (forall x, In x (pend_ids (s_pending s')) ->
+        In x (pend_ids (s_pending s)) \/ In x (admitted_ids e d))
+  /\ (forall x, In x (admitted_ids e d) -> ~ In x (pend_ids (s_pending s)))
+  /\ NoDup (admitted_ids e d).
+Proof. exact reply_once_step. Qed.
+Print Assumptions c06_reply_once_step.
+
+(* over a whole history: an op id is answered at most as often as it was admitted *)
+Theorem c06_reply_once :
+  forall key local gen id leo hw cp, cp <= hw -> hw <= leo -> forall evs x,
+  (replies_to x (run (init_state key local gen id leo hw cp) evs)
+   <= admissions_of x (run (init_state key local gen id leo hw cp) evs))%nat.
+Proof. exact reply_once. Qed.
+Print Assumptions c06_reply_once.
+
+(* the same bound for ANY trace the monitor accepts — in particular for implementation traces *)
+Theorem c06_monitor_implies_reply_once : forall tr s0 x,
+  trace_ok s0 tr = true ->
+  (replies_to x tr + waiting x (final_state s0 tr) <= admissions_of x tr + waiting x s0)%nat.
+Proof. exact trace_ok_reply_once. Qed.
+Print Assumptions c06_monitor_implies_reply_once.
+
+(* a stored result / quorum receipt whose fence does not match changes nothing (any state) *)
+Theorem c06_stale_fence_noop : forall s f, matches_fence s f = false ->
+  (forall base last err, step s (EvStored f base last err) = (s, dec_empty))
+  /\ (forall first last hw err, step s (EvQuorum f first last hw err) = (s, dec_empty)).
+Proof. exact stale_fence_noop. Qed.
+Print Assumptions c06_stale_fence_noop.
+
+(* metadata with an older epoch / leader epoch or a same-fence leader switch is rejected and
+   changes nothing (any state) *)
+Theorem c06_meta_rejects : forall s m,
+  m_epoch m < s_epoch s
+  \/ (m_epoch m = s_epoch s /\ m_lepoch m < s_lepoch s)
+  \/ (m_epoch m = s_epoch s /\ m_lepoch m = s_lepoch s /\ m_leader m <> s_leader s) ->
+  exists e, e <> 0 /\ step s (EvMeta m) = (s, dec_err e).
+Proof. exact meta_rejects. Qed.
+Print Assumptions c06_meta_rejects.
+
+(* the leader rejects an ack above LEO on every route (harness guard, progress ack, stopped ack, pull) *)
+Theorem c06_ack_guard_all_routes : forall s r key epoch lepoch follower off ver_ok,
+  s_leo s < off ->
+  exists e, e <> 0 /\ step s (EvAck r key epoch lepoch follower off ver_ok) = (s, dec_err e).
+Proof. exact ack_guard_all_routes. Qed.
+Print Assumptions c06_ack_guard_all_routes.
+
+(* ... and the guard is necessary: with ApplyFollowerAck called unguarded a two-event history
+   reaches HW > LEO *)
+Theorem c06_unguarded_ack_refuted :
+  exists evs, let s := run_state_unguarded (init_state 1 1 1 0 0 0 0) evs in s_leo s < s_hw s.
+Proof. exact unguarded_ack_refuted. Qed.
+Print Assumptions c06_unguarded_ack_refuted.
+
+(* the model's one totalised Go panic (slice bounds in assignInflightRecordsToWaiters) is
+   unreachable: in every reachable state with an in-flight batch the slicing stays in range *)
+Theorem c06_no_slice_out_of_range : forall key local gen id leo hw cp evs i base,
+  let s := run_state (init_state key local gen id leo hw cp) evs in
+  s_infl s = Some i ->
+  assign_in_range (assign_offsets (f_recs i) base) 0 (f_ids i) (f_counts i) (s_pending s) = true.
+Proof. exact no_slice_out_of_range. Qed.
+Print Assumptions c06_no_slice_out_of_range.
+
+(* the monitor evaluated on implementation traces accepts every trace the model can produce
+   (so: model = implementation on a case, plus the theorems above, implies the monitor holds;
+   a monitor failure on an implementation trace is a real property failure) *)
+Theorem c06_model_satisfies_monitor : forall key local gen id leo hw cp evs,
+  cp <= hw -> hw <= leo -> C06_monitor (model_case key local gen id leo hw cp evs) = 0.
+Proof. exact model_satisfies_monitor. Qed.
+Print Assumptions c06_model_satisfies_monitor.
+
+Theorem c06_model_case_no_mismatch : forall key local gen id leo hw cp evs,
+  C06_mismatch (model_case key local gen id leo hw cp evs) = false.
+Proof. exact model_case_no_mismatch. Qed.
+Print Assumptions c06_model_case_no_mismatch.
+
+(* ---- non-vacuity ------------------------------------------------------------------------------ *)
+Definition ex_meta : meta := Meta 1 1 1 1 1 [1; 2; 3] [1; 2] 2%Z StatusActive.
+Definition ex_history : list event :=
+  [ EvMeta ex_meta;
+    EvPropose 100 [BWaiter 7 CommitModeQuorum [501; 502] true; BWaiter 8 CommitModeLocal [503] true];
+    EvStored (Fence 1 1 1 1 100) 4 6 0;            (* local waiter 8 answered, quorum waiter 7 waits *)
+    EvAck RProgress 1 1 1 2 9 true;                (* above LEO: rejected *)
+    EvAck RPull 1 1 1 2 5 true;                    (* HW = 5 >= target 5: waiter 7 answered *)
+    EvStored (Fence 1 1 1 1 100) 7 7 0;            (* stale: no inflight any more *)
+    EvMeta (Meta 1 1 1 1 3 [1; 2; 3] [1; 2] 2%Z StatusActive) ]. (* same fence, other leader: rejected *)
+
+(* the history really exercises the hypotheses: replies, a quorum completion by ack, rejections *)
+Example c06_example_history :
+  map (fun x => match x with (_, d, s) => (d_err d, map r_op (d_replies d), s_leo s, s_hw s) end)
+      (run (init_state 1 1 1 0 3 3 2) ex_history)
+  = [ (0, [], 3, 3); (0, [], 3, 3); (0, [8], 6, 3); (EStaleMeta, [], 6, 3); (0, [7], 6, 5);
+      (0, [], 6, 5); (EStaleMeta, [], 6, 5) ].
 Proof. vm_compute. reflexivity. Qed.
+
+Example c06_example_monitor_accepts :
+  C06_monitor (model_case 1 1 1 0 3 3 2 ex_history) = 0
+  /\ replies_to 7 (run (init_state 1 1 1 0 3 3 2) ex_history) = 1%nat
+  /\ admissions_of 7 (run (init_state 1 1 1 0 3 3 2) ex_history) = 1%nat.
+Proof. vm_compute. repeat split. Qed.
+
+(* the monitor is not trivially 0: a trace that answers quorum waiter 7 before HW covers it, a
+   trace with HW above LEO, and a double answer are all rejected *)
+Definition bad_state (hw : N) (pend : list waiter) : state :=
+  State 1 1 1 1 1 1 RoleLeader StatusActive 1 [1; 2] [1; 2] 2%Z 6 hw 2 true [(1, 6)] pend
+        (map w_op pend) None.
+Example c06_example_monitor_rejects :
+  let w7 := Waiter 7 5 CommitModeQuorum [(501, 4); (502, 5)] in
+  (* early quorum reply: HW = 3 < target 5 *)
+  trace_ok (bad_state 3 [w7])
+           [(EvAck RDirect 1 1 1 2 3 true, dec_replies [Reply 7 0 [(501, 4); (502, 5)]], bad_state 3 [])] = false
+  (* HW above LEO *)
+  /\ trace_ok (bad_state 3 []) [(EvAck RPull 1 1 1 2 9 true, dec_empty, bad_state 9 [])] = false
+  (* answered while still waiting afterwards (would be answered again) *)
+  /\ trace_ok (bad_state 6 [w7])
+           [(EvAck RDirect 1 1 1 2 6 true, dec_replies [Reply 7 0 [(501, 4); (502, 5)]], bad_state 6 [w7])] = false.
+Proof. vm_compute. repeat split. Qed.
